@@ -5,14 +5,16 @@ from props.C02 import replay
 META = {
     "text": "Lean theorems over the any-width lane model (any W >= 1, any number of threads): a thread inside a barrier item excludes every other thread inside any item "
             "(barrier_exclusion, also while width is reserved for a nested dispatch_apply), the barrier lock is never duplicated by lock transfer, and the width word equals "
-            "exactly the units held + redirected items + the pending-barrier reservation in every reachable state. Every dq_state transition of a concurrent queue under "
+            "exactly the units held + redirected items + the pending-barrier reservation in every reachable state; items leave the list in the order they entered it for every width "
+            "(fifo_every_width over executions with push / pop history), a thread owns the lane in barrier mode only while no earlier-popped reader is unfinished, and nothing starts while a barrier item runs. Every dq_state transition of a concurrent queue under "
             "mixed reader / barrier / sync / apply workloads is replayed through LaneW.step; exclusion and the two ordering clauses are evaluated on the stamps of the same runs.",
-    "note": "Partial: the ordering clauses (items submitted before / after a barrier) have no theorem; they are checked by the oracle (sampling), and the first of them is false for a dispatch_barrier_sync on the fast path (known finding F15, shared with C02). Interleaving model; "
+    "note": "The ordering theorems are about the order in which items reach the queue's list (the tail exchange inside the submitting call); the call/return formulation is checked by the oracle (sampling), and is false for a dispatch_barrier_sync on the fast path (known finding F15, shared with C02). Interleaving model; "
             "QoS / override bits are masked out of the comparison.",
     "technique": "Lean 4 proof (Owicki-Gries invariant with ghost unit holders) + replay of real atomic traces through the model's step function + stamp oracle",
 }
 
-THEOREMS = ["C04.barrier_exclusion", "C04.barrier_owner_unique", "C04.width_accounting", "C04.nonbarrier_running_accounted"]
+THEOREMS = ["C04.barrier_exclusion", "C04.barrier_owner_unique", "C04.width_accounting", "C04.nonbarrier_running_accounted",
+            "C04.fifo_every_width", "C04.barrier_after_earlier_readers", "C04.nothing_starts_during_barrier"]
 
 
 def run(ctx):
